@@ -24,6 +24,7 @@ type c06 struct{}
 func init() { core.Register("C06", func() core.Scenario { return c06{} }) }
 
 var c06auths = []string{"valid", "valid", "wrong-token", "unknown-user", "empty", "nonstring-user", "nonstring-token", "forged-uint", "forged-int",
+	"resplit", "resplit", "swapped", "token-prefix", "user-case", "other-users-token",
 	"forged-string", "forged-list", "dup-valid-first", "dup-valid-last", "too-many", "truncated", "capability-message", "garbage"}
 
 func (c06) Gen(r *rand.Rand, tier string, run int) *core.Case {
@@ -209,6 +210,22 @@ func c06authPayload(variant string, user, token string, r *rand.Rand) []byte {
 		return ref.EncodeCapMap(append(std, u(user), t(token+"x")))
 	case "unknown-user":
 		return ref.EncodeCapMap(append(std, u("mallory"), t(token)))
+	case "resplit":
+		// the same characters cut elsewhere: nothing the authenticator accepts
+		all := user + token
+		k := r.IntN(len(all) + 1)
+		if k == len(user) {
+			k = 0
+		}
+		return ref.EncodeCapMap(append(std, u(all[:k]), t(all[k:])))
+	case "swapped":
+		return ref.EncodeCapMap(append(std, u(token), t(user)))
+	case "token-prefix":
+		return ref.EncodeCapMap(append(std, u(user), t(token[:len(token)-1])))
+	case "user-case":
+		return ref.EncodeCapMap(append(std, u(strings.ToUpper(user)), t(token)))
+	case "other-users-token":
+		return ref.EncodeCapMap(append(std, u("v"), t(token)))
 	case "empty":
 		return ref.EncodeCapMap(std)
 	case "nonstring-user":
